@@ -28,9 +28,10 @@ import (
 
 // Item is one yielded (record, error) pair in canonical form.
 type Item struct {
-	Rec string // canonical representation of the record ("" for an error item)
-	Err error
-	Raw any // the record itself
+	Rec   string // canonical representation of the record at the time it was yielded ("" for an error item)
+	Err   error
+	Raw   any           // the record itself
+	canon func() string // recomputes the canonical representation from Raw
 }
 
 func (it Item) String() string {
@@ -55,6 +56,9 @@ type Codec struct {
 	Name   string
 	Reader func(r io.Reader, cb func(Item) bool)
 	File   func(path string, cb func(Item) bool)
+	// FileSeq obtains the iterator value from File(path) ONCE and returns a runner that ranges
+	// over that same value every time it is called.
+	FileSeq func(path string) func(cb func(Item) bool)
 	// ErrorIsLast: the statement says an error item is always the last item.
 	ErrorIsLast bool
 }
@@ -148,46 +152,106 @@ func canonTree(n *newick.Node) string {
 var codecs = map[string]*Codec{
 	"fasta": {Name: "fasta", ErrorIsLast: true,
 		Reader: func(r io.Reader, cb func(Item) bool) {
-			fasta.Reader(r)(func(f *fasta.Fasta, err error) bool { return cb(mkItem(canonFasta(f), err, f)) })
+			fasta.Reader(r)(func(f *fasta.Fasta, err error) bool {
+				return cb(mkItem(func() string { return canonFasta(f) }, err, f))
+			})
 		},
 		File: func(p string, cb func(Item) bool) {
-			fasta.File(p)(func(f *fasta.Fasta, err error) bool { return cb(mkItem(canonFasta(f), err, f)) })
-		}},
+			fasta.File(p)(func(f *fasta.Fasta, err error) bool {
+				return cb(mkItem(func() string { return canonFasta(f) }, err, f))
+			})
+		},
+		FileSeq: func(p string) func(cb func(Item) bool) {
+			it := fasta.File(p)
+			return func(cb func(Item) bool) {
+				it(func(v *fasta.Fasta, err error) bool {
+					return cb(mkItem(func() string { return canonFasta(v) }, err, v))
+				})
+			}
+		},
+	},
 	"fastq": {Name: "fastq", ErrorIsLast: true,
 		Reader: func(r io.Reader, cb func(Item) bool) {
-			fastq.Reader(r)(func(f *fastq.Fastq, err error) bool { return cb(mkItem(canonFastq(f), err, f)) })
+			fastq.Reader(r)(func(f *fastq.Fastq, err error) bool {
+				return cb(mkItem(func() string { return canonFastq(f) }, err, f))
+			})
 		},
 		File: func(p string, cb func(Item) bool) {
-			fastq.File(p)(func(f *fastq.Fastq, err error) bool { return cb(mkItem(canonFastq(f), err, f)) })
-		}},
+			fastq.File(p)(func(f *fastq.Fastq, err error) bool {
+				return cb(mkItem(func() string { return canonFastq(f) }, err, f))
+			})
+		},
+		FileSeq: func(p string) func(cb func(Item) bool) {
+			it := fastq.File(p)
+			return func(cb func(Item) bool) {
+				it(func(v *fastq.Fastq, err error) bool {
+					return cb(mkItem(func() string { return canonFastq(v) }, err, v))
+				})
+			}
+		},
+	},
 	"sam": {Name: "sam",
 		Reader: func(r io.Reader, cb func(Item) bool) {
-			sam.Reader(r)(func(s *sam.SAM, err error) bool { return cb(mkItem(canonSAM(s), err, s)) })
+			sam.Reader(r)(func(s *sam.SAM, err error) bool { return cb(mkItem(func() string { return canonSAM(s) }, err, s)) })
 		},
 		File: func(p string, cb func(Item) bool) {
-			sam.File(p)(func(s *sam.SAM, err error) bool { return cb(mkItem(canonSAM(s), err, s)) })
-		}},
+			sam.File(p)(func(s *sam.SAM, err error) bool { return cb(mkItem(func() string { return canonSAM(s) }, err, s)) })
+		},
+		FileSeq: func(p string) func(cb func(Item) bool) {
+			it := sam.File(p)
+			return func(cb func(Item) bool) {
+				it(func(v *sam.SAM, err error) bool { return cb(mkItem(func() string { return canonSAM(v) }, err, v)) })
+			}
+		},
+	},
 	"samh": {Name: "samh",
 		Reader: func(r io.Reader, cb func(Item) bool) {
-			sam.ReaderHeader(r)(func(sh sam.SAMOrHeader, err error) bool { return cb(mkItem(canonSamH(sh), err, sh)) })
+			sam.ReaderHeader(r)(func(sh sam.SAMOrHeader, err error) bool {
+				return cb(mkItem(func() string { return canonSamH(sh) }, err, sh))
+			})
 		},
 		File: func(p string, cb func(Item) bool) {
-			sam.FileHeader(p)(func(sh sam.SAMOrHeader, err error) bool { return cb(mkItem(canonSamH(sh), err, sh)) })
-		}},
+			sam.FileHeader(p)(func(sh sam.SAMOrHeader, err error) bool {
+				return cb(mkItem(func() string { return canonSamH(sh) }, err, sh))
+			})
+		},
+		FileSeq: func(p string) func(cb func(Item) bool) {
+			it := sam.FileHeader(p)
+			return func(cb func(Item) bool) {
+				it(func(v sam.SAMOrHeader, err error) bool {
+					return cb(mkItem(func() string { return canonSamH(v) }, err, v))
+				})
+			}
+		},
+	},
 	"bed": {Name: "bed", ErrorIsLast: true,
 		Reader: func(r io.Reader, cb func(Item) bool) {
-			bed.Reader(r)(func(b *bed.BED, err error) bool { return cb(mkItem(canonBED(b), err, b)) })
+			bed.Reader(r)(func(b *bed.BED, err error) bool { return cb(mkItem(func() string { return canonBED(b) }, err, b)) })
 		},
 		File: func(p string, cb func(Item) bool) {
-			bed.File(p)(func(b *bed.BED, err error) bool { return cb(mkItem(canonBED(b), err, b)) })
-		}},
+			bed.File(p)(func(b *bed.BED, err error) bool { return cb(mkItem(func() string { return canonBED(b) }, err, b)) })
+		},
+		FileSeq: func(p string) func(cb func(Item) bool) {
+			it := bed.File(p)
+			return func(cb func(Item) bool) {
+				it(func(v *bed.BED, err error) bool { return cb(mkItem(func() string { return canonBED(v) }, err, v)) })
+			}
+		},
+	},
 	"newick": {Name: "newick", ErrorIsLast: true,
 		Reader: func(r io.Reader, cb func(Item) bool) {
-			newick.Reader(r)(func(n *newick.Node, err error) bool { return cb(mkItem(canonTree(n), err, n)) })
+			newick.Reader(r)(func(n *newick.Node, err error) bool { return cb(mkItem(func() string { return canonTree(n) }, err, n)) })
 		},
 		File: func(p string, cb func(Item) bool) {
-			newick.File(p)(func(n *newick.Node, err error) bool { return cb(mkItem(canonTree(n), err, n)) })
-		}},
+			newick.File(p)(func(n *newick.Node, err error) bool { return cb(mkItem(func() string { return canonTree(n) }, err, n)) })
+		},
+		FileSeq: func(p string) func(cb func(Item) bool) {
+			it := newick.File(p)
+			return func(cb func(Item) bool) {
+				it(func(v *newick.Node, err error) bool { return cb(mkItem(func() string { return canonTree(v) }, err, v)) })
+			}
+		},
+	},
 }
 
 var codecNames = []string{"fasta", "fastq", "sam", "samh", "bed", "newick"}
@@ -204,14 +268,18 @@ func canonSamH(sh sam.SAMOrHeader) string {
 	return "samh|NEITHER"
 }
 
-func mkItem(rec string, err error, raw any) Item {
+func mkItem(canon func() string, err error, raw any) Item {
 	if err != nil {
 		return Item{Err: err}
 	}
-	return Item{Rec: rec, Raw: raw}
+	return Item{Rec: canon(), Raw: raw, canon: canon}
 }
 
 // collect runs an iterator to completion (or to the item cap) and recovers panics.
+//
+// After the run every yielded record is canonicalised again: a record that changed after it
+// was handed to the consumer (e.g. because it aliases a reader's internal buffer) is reported
+// through the panicked result with a descriptive message.
 func collect(run func(cb func(Item) bool), limit int) (items []Item, over bool, panicked any) {
 	panicked = catch(func() {
 		run(func(it Item) bool {
@@ -223,6 +291,15 @@ func collect(run func(cb func(Item) bool), limit int) (items []Item, over bool, 
 			return true
 		})
 	})
+	if panicked == nil {
+		for i, it := range items {
+			if it.Err == nil && it.canon != nil {
+				if now := it.canon(); now != it.Rec {
+					return items, over, fmt.Sprintf("(no panic) record item %d changed after it was yielded: was %s, is now %s", i, it, Item{Rec: now})
+				}
+			}
+		}
+	}
 	return
 }
 
@@ -414,7 +491,23 @@ func genWellFormedLines(t *rapid.T, format string, nrecs int) []gen.B {
 			if rapid.Bool().Draw(t, "dists") {
 				ts.Dists = []gen.F{gen.F(float64(rapid.IntRange(0, 40).Draw(t, "d")) / 4), 0, 1.5}
 			}
-			add(renderNewick(ts))
+			text := renderNewick(ts)
+			if rapid.Bool().Draw(t, "multiline") {
+				// Newick allows line breaks between any two tokens: also right after a label or
+				// a branch length.
+				start := 0
+				for k := 0; k < len(text); k++ {
+					punct := strings.IndexByte("(),:;", text[k]) >= 0
+					nextPunct := k+1 < len(text) && strings.IndexByte("(),:;", text[k+1]) >= 0
+					if k+1 < len(text) && (punct || nextPunct) && rapid.IntRange(0, 3).Draw(t, "break") == 0 {
+						add(text[start : k+1])
+						start = k + 1
+					}
+				}
+				add(text[start:])
+			} else {
+				add(text)
+			}
 		}
 	}
 	return lines
@@ -470,6 +563,45 @@ func (k *marshalKeeper) verify() error {
 		if !bytes.Equal(k.kept[i], k.copies[i]) {
 			return fmt.Errorf("the bytes returned by MarshalText for %s were overwritten by a later MarshalText call: %s, was %s",
 				k.what[i], gen.Abbrev(k.kept[i]), gen.Abbrev(k.copies[i]))
+		}
+	}
+	return nil
+}
+
+// arena lays byte fields out back to back in one backing array and hands out plain
+// sub-slices of it, so that every field's spare capacity holds the live data of the fields
+// that follow (records are often windows of one large buffer). A writer that appends to a
+// field, or otherwise writes past its length, corrupts a neighbour; verify detects any change.
+type arena struct {
+	buf, orig []byte
+	bounds    [][2]int
+}
+
+func newArena(fields ...[]byte) *arena {
+	n := 0
+	for _, f := range fields {
+		n += len(f)
+	}
+	a := &arena{buf: make([]byte, 0, n+16)}
+	for _, f := range fields {
+		start := len(a.buf)
+		a.buf = append(a.buf, f...)
+		a.bounds = append(a.bounds, [2]int{start, len(a.buf)})
+	}
+	a.buf = append(a.buf, "0123456789abcdef"...) // live tail after the last field
+	a.orig = bytes.Clone(a.buf)
+	return a
+}
+
+// field returns the i-th field as a sub-slice whose capacity extends over the following fields.
+func (a *arena) field(i int) []byte { return a.buf[a.bounds[i][0]:a.bounds[i][1]] }
+
+func (a *arena) verify() error {
+	if !bytes.Equal(a.buf, a.orig) {
+		for i := range a.buf {
+			if a.buf[i] != a.orig[i] {
+				return fmt.Errorf("the writer modified the caller's memory: byte %d of the buffer holding the records' fields changed from %q to %q (fields are sub-slices of one buffer)", i, a.orig[i], a.buf[i])
+			}
 		}
 	}
 	return nil
